@@ -2,18 +2,89 @@
   C16 — values are dropped exactly once and round-trip unchanged.
 -/
 import HLV.Model.Own
+import HLV.Static.OwnRules
 namespace HLV.Own
+open HLV.Static
 
--- @theorem C16_boxed_new_then_drop_frees_everything_once : new / try_new followed by Drop (also the path of a try_new that rejects its input: the collection is built, then dropped) frees the heap cell once, drops the payload once, frees the lock list once and touches nothing after freeing it
-theorem C16_boxed_new_then_drop_frees_everything_once : (run (opsNew ++ opsDrop)).clean false = true := by decide
+set_option maxRecDepth 1000000
 
--- @theorem C16_boxed_into_child_moves_payload_out_once : into_child frees the cell once, hands the payload to the caller once without dropping it, frees the lock list once, and the forgotten collection runs neither Drop nor the field glue
-theorem C16_boxed_into_child_moves_payload_out_once : (run (opsNew ++ opsIntoChild)).clean true = true := by decide
+-- @theorem C16_ownership_primitives_only_in_audited_functions : in the source as it is now, the only non-test functions that touch an ownership-sensitive primitive (mem::forget, Box::leak / from_raw, ptr::drop_in_place / read / write, MaybeUninit, ManuallyDrop, transmute, set_len …) are the audited ones — BoxedLockCollection::{new_unchecked, drop, into_child}, the six array functions of lockable.rs and unlock_all_writes / unlock_all_reads — and each of them still has its record; everything else is safe Rust, which drops every value exactly once
+theorem C16_ownership_primitives_only_in_audited_functions :
+    c16_unauditedSensitive = [] ∧ c16_auditedMissing = [] := by decide +kernel
 
--- @theorem C16_model_exhibits_the_classic_mistakes : the model is able to show the bugs the code avoids: into_child without mem::forget double-frees, a Drop that does not reclaim the box leaks
+-- @theorem C16_boxed_new_then_drop_frees_everything_once : the call sequences extracted from new_unchecked and Drop::drop of boxed.rs, run on the heap-cell model (new / try_new followed by Drop — also the path of a try_new that rejects its input: the collection is built, then dropped), free the heap cell once, drop the payload once, free the lock list once and touch nothing after freeing it
+theorem C16_boxed_new_then_drop_frees_everything_once :
+    (boxedNewOps.bind fun n => boxedDropOps.map fun d => (lifeDrop n d).clean false) = some true := by
+  decide +kernel
+
+-- @theorem C16_boxed_into_child_moves_payload_out_once : the call sequence extracted from into_child frees the cell once, hands the payload to the caller once without dropping it, frees the lock list once, and the forgotten collection runs neither Drop nor the field glue when it goes out of scope
+theorem C16_boxed_into_child_moves_payload_out_once :
+    (boxedNewOps.bind fun n => boxedDropOps.bind fun d => boxedIntoChildOps.map fun c =>
+      (lifeIntoChild n c d).clean true) = some true := by
+  decide +kernel
+
+-- @theorem C16_boxed_source_says_what_the_model_expects : the extracted sequences are the ones the model was written for (a rewrite of boxed.rs that keeps the theorems above true but changes the sequence shows up here first)
+theorem C16_boxed_source_says_what_the_model_expects :
+    boxedNewOps = some opsNew ∧ boxedDropOps = some opsDrop ∧ boxedIntoChildOps = some opsIntoChild := by
+  decide +kernel
+
+-- @theorem C16_model_exhibits_the_classic_mistakes : the model is able to show the bugs the code avoids: into_child without mem::forget double-frees, a Drop that does not reclaim the box leaks, a Box that is not leaked in new_unchecked is freed at the end of the constructor and used afterwards, drop(boxed) followed by into_inner frees twice
 theorem C16_model_exhibits_the_classic_mistakes :
-    (run (opsNew ++ [.dropLocksInPlace, .fromRawIntoInner] ++ opsDrop)).clean true = false ∧
-    (run (opsNew ++ [.clearLocks, .fieldGlue])).clean false = false := by decide
+    (lifeIntoChild opsNew [.dropLocksInPlace, .fromRaw, .boxIntoInner] opsDrop).clean true = false ∧
+    (lifeDrop opsNew [.clearLocks]).clean false = false ∧
+    (lifeDrop [.boxNew, .buildLocks] opsDrop).clean false = false ∧
+    (lifeIntoChild opsNew [.dropLocksInPlace, .fromRaw, .forgetSelf, .dropBox, .boxIntoInner] opsDrop).clean true = false ∧
+    (lifeIntoChild opsNew [.fromRaw, .forgetSelf, .boxIntoInner] opsDrop).clean true = false := by decide
+
+theorem filter_eq_range (n j : Nat) (h : j < n) : (List.range n).filter (fun i => i == j) = [j] := by
+  induction n with
+  | zero => omega
+  | succ n ih =>
+    rw [List.range_succ, List.filter_append]
+    rcases Nat.lt_or_ge j n with hlt | hge
+    · rw [ih hlt]
+      have : (n == j) = false := by simp; omega
+      simp [List.filter, this]
+    · have hj : j = n := by omega
+      subst hj
+      have : (List.range j).filter (fun i => i == j) = [] := by
+        rw [List.filter_eq_nil_iff]
+        intro a ha
+        have := List.mem_range.1 ha
+        simp; omega
+      rw [this]; simp [List.filter]
+
+-- @theorem C16_array_fill_is_exact : for every array length N, the loop "for i in 0..N: slot i := element i" followed by assume_init on every slot writes every slot exactly once (no read of uninitialised memory, no overwritten and leaked value, no index out of bounds) and slot j holds the value of element j
+theorem C16_array_fill_is_exact (n : Nat) : ({ dst := .loopVar, src := .loopVar } : ArrFill).clean n := by
+  have hid : (List.range n).map (Idx.eval .loopVar) = List.range n := by
+    have : Idx.eval .loopVar = id := by funext i; rfl
+    rw [this, List.map_id]
+  refine ⟨fun i h => h, ?_, ?_⟩
+  · simp only [ArrFill.writes, hid]
+    apply List.ext_getElem
+    · simp
+    · intro i h1 h2
+      simp only [List.getElem_map, List.getElem_range, List.getElem_replicate, List.count_range]
+      have : i < n := by simpa using h1
+      simp [this]
+  · intro j hj
+    simp only [ArrFill.source, Idx.eval]
+    rw [filter_eq_range n j hj]
+    rfl
+
+-- @theorem C16_array_functions_fill_slot_i_from_element_i : the records extracted from [T; N]::{guard, data_mut, read_guard, data_ref, get_mut, into_inner} are all of the shape uninit; for i in 0..N (or enumerate over the elements); one call on element i; write into slot i; assume_init on every slot — so the theorem above is about what the source says now
+theorem C16_array_functions_fill_slot_i_from_element_i : c16_arrayFills = [] := by decide +kernel
+
+-- @theorem C16_model_exhibits_array_mistakes : the fill model shows the mistakes the code avoids: writing every value into slot 0 leaves slot 1 uninitialised and leaks, reading every value from element 0 puts values at the wrong positions
+theorem C16_model_exhibits_array_mistakes :
+    ¬ ({ dst := .const 0, src := .loopVar } : ArrFill).clean 2 ∧
+    ¬ ({ dst := .loopVar, src := .const 0 } : ArrFill).clean 2 := by
+  constructor
+  · intro h; exact absurd h.2.1 (by decide)
+  · intro h; exact absurd (h.2.2 1 (by decide)) (by decide)
+
+-- @theorem C16_only_panic_payloads_are_forgotten : the only ownership-sensitive call of unlock_all_writes / unlock_all_reads is mem::forget(e) on the payload of a caught surplus panic — never a stored value
+theorem C16_only_panic_payloads_are_forgotten : c16_payloadForget = [] := by decide +kernel
 
 mutual
 theorem flatten_build (s : OShape) (vs : List Nat) (h : s.size ≤ vs.length) :
